@@ -112,6 +112,7 @@ func runC02(c *run.Ctx, s *kit.Summary) {
 	if c.Replay == "" {
 		e2eCap(c, s, kit.NewRng(c.Seed+11))
 		drainScenario(c, s, kit.NewRng(c.Seed+13))
+		idleScenario(c, s, kit.NewRng(c.Seed+14))
 		attackctl.MaxConnsRuns(c, s, kit.NewRng(c.Seed+12))
 	}
 }
